@@ -1,7 +1,10 @@
 """C13 - numeric conversions never lose information silently."""
 import json
+import math
 import os
 import re
+import struct
+from fractions import Fraction
 
 import vlib
 from vlib import zlit, coq_str
@@ -86,6 +89,23 @@ def oracle_tables(recs):
             t[f].append("(%s, (%s, %s))" % (zlit(r["x"]), zlit(r["bf"][0]), zlit(r["bf"][1])))
     fields = "; ".join("t_%s := [%s]" % (k, "; ".join(v)) for k, v in t.items())
     return "Definition T : oracle_tables := {| %s |}.\nDefinition OI : oracles := table_oracles T.\n" % fields
+
+
+def bf_real(bf):
+    """exact value of the harness's (mantissa, exponent) description of a *big.Float: Fraction, or +-inf"""
+    m, e = int(bf[0]), int(bf[1])
+    if e == 1000000:
+        return math.inf if m > 0 else -math.inf
+    if m == 0:
+        return Fraction(0)
+    return Fraction(m) * Fraction(2) ** e
+
+
+def f64_real(bits):
+    f = struct.unpack(">d", struct.pack(">Q", int(bits)))[0]
+    if math.isinf(f) or math.isnan(f):
+        return f
+    return Fraction(f)
 
 
 def chunks(lst, n):
@@ -212,7 +232,7 @@ def check(run):
         table = json.load(open(table_path))
     except Exception:
         table = {}
-    if "harness" not in fails and table:
+    if "harness" not in fails:      # the search does not depend on the translator's table (the harness tolerates its absence)
         args = [table_path] + (["thorough"] if run.tier == "thorough" else [])
         rc, out, err = vlib.harness("num", args, run.seed)
         if rc != 0:
@@ -266,11 +286,33 @@ def check(run):
                 and not r["name"].startswith("convertToFloat"):
             if int(r["val"]) != int(r["p"]["z"]):
                 findings.append({"cql": r["name"], "dir": "encode", "gotype": r["go"], "value": r["p"]["z"], "observed": r["val"], "expected": "error or the same integer"})
+        elif r["k"] == "to" and r["ok"] and not r.get("nil") and r["name"] == "convertToFloat64" and "bf" in r["p"]:
+            # *big.Float source: the float64 handed on must be the same real number (judged with exact rationals)
+            want, got = bf_real(r["p"]["bf"]), f64_real(r["val"])
+            if want != got:
+                findings.append({"cql": r["name"], "dir": "encode", "gotype": r["go"], "value": "%s * 2^%s" % tuple(r["p"]["bf"]),
+                                 "observed": "float64 bits %s = %s" % (r["val"], got), "expected": "error or the same real number"})
         elif r["k"] == "from" and r["ok"] and not r["null"] and not r["name"].startswith("convertFromFloat") and "z" in r.get("st", {}):
             if int(r["st"]["z"]) != int(r["val"]):
                 findings.append({"cql": r["name"], "dir": "decode", "gotype": r["go"], "value": r["val"], "observed": r["st"]["z"], "expected": "error or the same integer"})
 
     counts = summ["counts"] if summ else {}
+
+    # ---- (b') the translation, a proof or the correspondence broke and the normal search found nothing: widen the search on the
+    #      implementation (harness "deep": the predicate alone, 10x the random integers, floats and *big.Floats) before giving up
+    deep = None
+    if broken and not findings and "harness" not in fails:
+        rc, out, err = vlib.harness("num", [table_path, "deep"], run.seed, 900)
+        drecs = []
+        for l in out.split("\n"):
+            if l.strip():
+                try:
+                    drecs.append(json.loads(l))
+                except ValueError:
+                    pass
+        findings = [r for r in drecs if r["k"] == "viol"]
+        deep = next((r["counts"] for r in drecs if r["k"] == "sum"), {"rc": rc, "stderr": err[-300:]})
+        run.note("widened search after a broken obligation: %s evaluations, %d failing input(s)" % (deep.get("pred"), len(findings)))
     run.coverage["evaluations"] = corr + counts.get("pred", 0)
     run.coverage["traces_validated_against_impl"] = corr
     run.coverage["distinct_nontrivial"] = counts.get("pred_pairs", 0)
@@ -278,11 +320,24 @@ def check(run):
                             "destination type (values, pointers, nil pointers, untyped nil, unsupported types) and the read*/write* functions on the property's boundary "
                             "set (0, +-1, +-2^7, 2^8, +-2^15, 2^16, +-2^31, 2^32, +-2^63, 2^64, 2^128 and neighbours) plus seeded random values; the same inputs through "
                             "the regenerated Gallina functions inside coqc (vm_compute); non-trivial = a distinct (CQL type, direction, Go type) pair whose public "
-                            "Encode/Decode was judged with math/big on all boundary values")
+                            "Encode/Decode was judged with math/big on all boundary values; floating point: *big.Float -> double/float and float64 -> float with values "
+                            "that are not exactly representable (below 2^-1022 [2^-126] and off the subnormal grid 2^-1074 [2^-149], more than 53 [24] significant "
+                            "bits, between MaxFloat64 [MaxFloat32] and the overflow threshold, at and above it) in directed classes and seeded random values, "
+                            "each judged by exact comparison of the stored IEEE value with the source: a conversion that loses information must be refused")
     run.coverage["samples"] = [r for r in recs if r["k"] in ("to", "from")][:3] + [{"pairs": (summ or {}).get("pairs", [])[:12]}]
     run.coverage["exhaustive"] = False
-    run.coverage["input_distribution"] = counts
+    run.coverage["input_distribution"] = dict([(k, v) for k, v in counts.items() if not isinstance(v, dict)] +
+                                              [("bigfloat_" + k, v) for k, v in (counts.get("bigfloat") or {}).items()])
     run.coverage["correspondence_mismatches"] = mism_found[:10]
+    if deep is not None:
+        run.coverage["widened_search"] = deep
+    obs = [r for r in recs if r["k"] == "obs"]
+    if obs:
+        run.coverage["observations"] = obs
+    bfc = counts.get("bigfloat") or {}
+    if bfc:
+        run.note("*big.Float -> double: %s values (directed classes subnormal / >53 bits / top of the range + seeded random), %s not representable, "
+                 "%s refused, %s accepted" % (bfc.get("cases"), bfc.get("not_representable"), bfc.get("refused"), bfc.get("accepted")))
 
     # ---- verdict
     known = vlib.known_findings("C13")
@@ -299,7 +354,9 @@ def check(run):
             if len(run.violations) < 10:
                 run.violation({"property": "C13", "failing_input": f,
                                "how_to_replay": "datacodec.<Codec of the CQL type>.Encode / Decode (protocol v5) with a Go value of the named type holding the value; "
-                                                "compare with the expected mathematical value",
+                                                "compare with the expected mathematical value. A *big.Float value is written m * 2^e: "
+                                                "new(big.Float).SetMantExp(new(big.Float).SetInt(m), e); e.g. datacodec.Double.Encode(x, primitive.ProtocolVersion5) "
+                                                "must return an error unless the 8 bytes are exactly x",
                                "broken": broken})
     if broken and not run.violations:
         # a mismatch between model and code is itself located on a concrete input
